@@ -293,6 +293,9 @@ func (s *c18Srv) serve(c net.Conn) {
 				}
 				continue
 			}
+			if rep.Stall {
+				time.Sleep(c18StallFor)
+			}
 			nextID++
 			stmts[nextID] = q
 			np := 0
@@ -313,6 +316,9 @@ func (s *c18Srv) serve(c net.Conn) {
 			}
 			if np > 0 {
 				c18Wpkt(c, &seq, c18EOF(st.tx))
+			}
+			if rep.Stall {
+				s.core.stallEnd()
 			}
 		case 0x17: // COM_STMT_EXECUTE
 			id := uint32(0)
@@ -360,7 +366,7 @@ func c18Boot() {
 	})
 }
 
-func TestC18MySQL(tt *testing.T)     { c18RapidUnit(tt, "TestC18MySQL") }
-func TestC18MySQLEnum(tt *testing.T) { c18EnumUnit(tt, "TestC18MySQLEnum") }
+func TestC18MySQL(tt *testing.T)      { c18RapidUnit(tt, "TestC18MySQL") }
+func TestC18MySQLEnum(tt *testing.T)  { c18EnumUnit(tt, "TestC18MySQLEnum") }
 func TestC18MySQLStall(tt *testing.T) { c18StallUnit(tt, "TestC18MySQLStall") }
-func TestC18MySQLShow(tt *testing.T) { c18ShowUnit(tt) }
+func TestC18MySQLShow(tt *testing.T)  { c18ShowUnit(tt) }
